@@ -12,6 +12,7 @@ import (
 	"encoding/json"
 	"errors"
 	"fmt"
+	"math"
 	"sort"
 	"strings"
 	"sync"
@@ -77,6 +78,7 @@ type monitor struct {
 	dups  []string // ids of ActorDuplicateIdEvent
 	dls   []actor.DeadLetterEvent
 	sents int
+	onDL  func(actor.DeadLetterEvent) // called by the monitor actor for every dead letter (optional)
 }
 
 type sentinel struct{ N int }
@@ -92,6 +94,9 @@ func newMonitor(e *actor.Engine) *monitor {
 			m.dups = append(m.dups, ev.PID.GetID())
 		case actor.DeadLetterEvent:
 			m.dls = append(m.dls, ev)
+			if m.onDL != nil {
+				m.onDL(ev)
+			}
 		case sentinel:
 			m.sents = ev.N
 			m.cond.Broadcast()
@@ -1032,6 +1037,9 @@ type Req struct {
 	// same, the requester actor having been spawned WithContext(a context that is cancelled already)
 	Via int `json:"via,omitempty"`
 	T   int `json:"t"` // timeout in ms for none/late/held
+	// Long (reply twice twicelate): the caller waits "for ever": 1 = one hour, 2 = the largest Duration,
+	// 3 = a few microseconds less than that.  The reply comes at once; what is generated is the timeout value.
+	Long int `json:"long,omitempty"`
 }
 
 type RCase struct {
@@ -1067,6 +1075,27 @@ func runRequests(c RCase) (map[string]int, error) {
 		return nil, fmt.Errorf("harness: %v", err)
 	}
 	mon := newMonitor(e)
+	// A first reply that becomes a dead letter while its requester has not even returned from Result()
+	// (and is nowhere near its timeout) was sent to a response PID that should have been registered:
+	// the reply is lost, whatever Result() says later.  The monitor sees an event after it was
+	// published, so "seen before Result() returned" implies "published before".
+	var (
+		startedAt = make([]atomic.Int64, len(c.Reqs))
+		returned  = make([]atomic.Bool, len(c.Reqs))
+		early     = make([]atomic.Bool, len(c.Reqs))
+	)
+	mon.mu.Lock()
+	mon.onDL = func(dl actor.DeadLetterEvent) {
+		m, ok := dl.Message.(repMsg)
+		if !ok || m.Second || m.Token < 0 || m.Token >= len(c.Reqs) {
+			return
+		}
+		t0 := startedAt[m.Token].Load()
+		if t0 != 0 && !returned[m.Token].Load() && time.Since(time.Unix(0, t0)) < 10*time.Second {
+			early[m.Token].Store(true)
+		}
+	}
+	mon.mu.Unlock()
 	var resp []*actor.PID
 	for i := 0; i < c.Responders; i++ {
 		held := map[int]*actor.PID{} // owned by the responder actor
@@ -1103,6 +1132,7 @@ func runRequests(c RCase) (map[string]int, error) {
 		err    error
 		respID string
 	}
+	var feat1 atomic.Bool // some request waits longer than the harness does
 	out := make([]outcome, len(c.Reqs))
 	var wg sync.WaitGroup
 	start := make(chan struct{})
@@ -1125,7 +1155,20 @@ func runRequests(c RCase) (map[string]int, error) {
 				// goroutine that is not scheduled for a while: finding F22)
 				timeout = time.Duration(r.T) * time.Millisecond
 			}
+			if r.B == "reply" || r.B == "twice" || r.B == "twicelate" {
+				switch r.Long {
+				case 1:
+					timeout = time.Hour
+				case 2:
+					timeout = time.Duration(math.MaxInt64)
+				case 3:
+					timeout = time.Duration(math.MaxInt64 - 100_000)
+				}
+			}
 			rq := reqMsg{Token: i, B: r.B, replied: make(chan struct{}), again: make(chan struct{}), done: make(chan struct{})}
+			if timeout >= wait {
+				startedAt[i].Store(time.Now().UnixNano())
+			}
 			var rs *actor.Response
 			if r.Via == 0 {
 				rs = e.Request(resp[r.R], rq, timeout)
@@ -1162,7 +1205,32 @@ func runRequests(c RCase) (map[string]int, error) {
 				time.Sleep(timeout + 15*time.Millisecond)
 			}
 			t0 := time.Now()
-			v, err := rs.Result()
+			var v any
+			var err error
+			if timeout > wait {
+				// "for ever" must not become the harness's problem when the reply is lost
+				feat1.Store(true)
+				type res struct {
+					v   any
+					err error
+				}
+				ch := make(chan res, 1)
+				go func() { v, err := rs.Result(); ch <- res{v, err} }()
+				select {
+				case x := <-ch:
+					v, err = x.v, x.err
+				case <-time.After(wait):
+					if early[i].Load() {
+						out[i].err = fmt.Errorf("request %d (timeout %v): the responder's reply became a DeadLetterEvent while the requester was waiting in Result(), which is still waiting: a reply sent in time did not reach the requester", i, timeout)
+					} else {
+						out[i].err = fmt.Errorf("%w: request %d got no reply within %v", errInconclusive, i, wait)
+					}
+					return
+				}
+			} else {
+				v, err = rs.Result()
+			}
+			returned[i].Store(true)
 			el := time.Since(t0)
 			if r.B == "twicelate" {
 				close(rq.again) // Result() has returned: the responder may send its second reply now
@@ -1185,6 +1253,10 @@ func runRequests(c RCase) (map[string]int, error) {
 				out[i].err = fmt.Errorf("request %d: Result() failed with %v after %v, before its timeout of %v had passed", i, err, el, timeout)
 				return
 			case r.B == "reply" || r.B == "twice" || r.B == "twicelate":
+				if early[i].Load() {
+					out[i].err = fmt.Errorf("request %d (timeout %v): the responder's reply became a DeadLetterEvent within 10 s of the request, while the requester was waiting in Result() - which then failed with %v: a reply sent in time did not reach the requester", i, timeout, err)
+					return
+				}
 				out[i].err = fmt.Errorf("%w: request %d got no reply within %v", errInconclusive, i, timeout)
 				return
 			}
@@ -1257,6 +1329,9 @@ func runRequests(c RCase) (map[string]int, error) {
 	if len(c.Reqs) >= 2 {
 		feat["concurrent-requests"]++
 	}
+	if feat1.Load() {
+		feat["timeout-of-an-hour-or-the-largest-duration"]++
+	}
 	return feat, nil
 }
 
@@ -1269,7 +1344,8 @@ func genRequests(t *rapid.T) RCase {
 			B:   rapid.SampledFrom([]string{"reply", "reply", "reply", "twice", "none", "late", "held", "twicelate"}).Draw(t, "b"),
 			Via: rapid.SampledFrom([]int{0, 0, 0, 1, 2}).Draw(t, "via"),
 			// 0 = a request whose timeout has passed as soon as it is made (Result() must still clean up)
-			T: rapid.SampledFrom([]int{0, 0, 5, 8, 13, 21, 30, 40}).Draw(t, "t"),
+			T:    rapid.SampledFrom([]int{0, 0, 5, 8, 13, 21, 30, 40}).Draw(t, "t"),
+			Long: rapid.SampledFrom([]int{0, 0, 0, 0, 1, 2, 3}).Draw(t, "long"),
 		})
 	}
 	return c
